@@ -65,7 +65,8 @@ def s_case(draw):
             return {"k": nod["k"], "c": [apply(c) for c in nod["c"]]}
         t = apply(t)
     ids = draw(st.sets(st.sampled_from(IDS + ["u%02d" % i for i in range(12)] + ["absent"]), max_size=8))
-    return {"tree": t, "ids": sorted(ids), "unpack_outer": draw(st.booleans())}
+    return {"tree": t, "ids": sorted(ids), "unpack_outer": draw(st.booleans()),
+            "ids_as": draw(st.sampled_from(["set", "set", "frozenset", "list", "dict", "contains-only"]))}
 
 
 RUNLOG = []
@@ -173,7 +174,10 @@ def run_case(spec):
     reg = {}
     live = build(t, cls, reg)
     keep = set(spec["ids"])
-    res = filter_by_ids(live, keep)
+    # "test_ids: something that supports the __contains__ protocol"
+    container = {"set": keep, "frozenset": frozenset(keep), "list": sorted(keep), "dict": dict.fromkeys(keep),
+                 "contains-only": type("OnlyContains", (), {"__contains__": lambda self, x: x in keep})()}[spec.get("ids_as", "set")]
+    res = filter_by_ids(live, container)
     got = [x.id() for x in iterate_tests(res)]
     want = [i for i in want_leaves if i in keep]
     if got != want:
@@ -306,7 +310,12 @@ def run_cli(spec):
             vs.append(V("cli", "list", "--list printed %r (ran %r), expected %r" % (out.splitlines(), ran, want_leaves)))
         keep = list(spec["ids"])
         with open(listfile, "wb") as f:
-            f.write("".join(i + "\n" for i in keep).encode("utf8"))
+            framing = spec.get("framing", "lf")
+            eol = "\r\n" if framing == "crlf" else "\n"
+            text = "".join(i + eol for i in keep)
+            if framing == "no-final-newline" and keep and keep[-1] != "":
+                text = text[:-len(eol)]
+            f.write(text.encode("utf8"))
             if spec.get("blank_line") and "" not in want_leaves:     # a blank line would name the test whose id is ""
                 f.write(b"\n")
         want = [i for i in want_leaves if i in set(keep)]
@@ -331,6 +340,9 @@ def run_cli(spec):
 def s_cli(draw):
     c = draw(s_case())
     c["blank_line"] = draw(st.booleans())
+    c["framing"] = draw(st.sampled_from(["lf", "lf", "crlf", "no-final-newline"]))      # how the list file ends its lines
+    if c["framing"] == "no-final-newline":
+        c["blank_line"] = False
     return c
 
 
